@@ -49,6 +49,7 @@ Definition dec_reply (m v : Z) : reply :=
   else if Z.leb m 3 then RVal v
   else if Z.eqb m 4 then RNil
   else if Z.eqb m 5 then RErr
+  else if Z.eqb m 7 || Z.eqb m 8 then RVal (-7)   (* "PONG": a value that is never a ping number *)
   else RDrop.
 
 Definition dec_ucmd (k : Z) : ucmd :=
